@@ -5,8 +5,10 @@ import NurbsVerif.Driver.Linalg
 import NurbsVerif.Driver.Layout
 import NurbsVerif.Driver.Equality
 import NurbsVerif.Driver.Weights
+import NurbsVerif.Driver.Mesh
+import NurbsVerif.Driver.Predicates
 namespace Drv
-def handlers : List (List String → Option String) := [handleBasic, handleShape, handleDegree, handleLinalg, handleLayout, handleEquality, handleWeights]
+def handlers : List (List String → Option String) := [handleBasic, handleShape, handleDegree, handleLinalg, handleLayout, handleEquality, handleWeights, handleMesh, handlePredicates]
 def step (line : String) : String :=
   let toks := (line.trimAscii.toString.splitOn " ").filter (· ≠ "")
   match handlers.findSome? (fun h => h toks) with
